@@ -266,8 +266,10 @@ func Harness_C14_handle_matches_byte_array() {
 		return
 	}
 	steps := 2
-	if vm.Tier() == "thorough" && !fileCache {
-		// (three calls with the memory cache, whose wrapper is STFS's own code; the file cache is an *os.File)
+	if vm.Tier() == "thorough" && !fileCache && l <= 2 {
+		// (three calls with the memory cache, whose wrapper is STFS's own code, over files of up to two bytes; the file
+		// cache is an *os.File, and the three-byte file runs two-call sequences: 8^3 sequences x 5 modes x 4 lengths did
+		// not finish within the thorough budget)
 		steps = 3
 	}
 	for i := 0; i < steps; i++ {
